@@ -1,6 +1,6 @@
 (* Property C16 — compiled models coexist in one process without interfering. *)
-From Coq Require Import String List Bool Arith.
-From TLX Require Import Model.Proc Gen.LibIO Gen.WrapperParams Proofs.C16Facts.
+From Coq Require Import String ZArith List Bool Arith.
+From TLX Require Import Model.Bits Model.CLang Model.Proc Gen.LibIO Gen.WrapperParams Proofs.C16Facts Model.Threads Gen.Storage Proofs.ThreadsFacts.
 Import ListNotations.
 
 (* the library calls made by compile(save) and load in the current source *)
@@ -43,6 +43,70 @@ Proof. reflexivity. Qed.
 Theorem C16_reentrant_structure : wrapper_template_matches = true.
 Proof. reflexivity. Qed.
 
+(* ---- concurrent calls: every schedule ---- *)
+(* the arrays declared inside the generated logic_net have the storage class of the module constant BUFFER_STORAGE at every
+   declaration site (translator), and that class is private to a thread *)
+Theorem C16_buffers_private : private_storage buffer_storage = true.
+Proof. reflexivity. Qed.
+
+(* EVERY schedule of EVERY set of threads calling EVERY set of libraries (same or different), word size W, statement by
+   statement: no thread gets stuck, what a thread has obtained so far is exactly what its calls return when made alone on fresh
+   memory (execZ: by C01 / C02 the eval-mode function of the model in every bit lane), in order, and a thread that has
+   finished has all its results — whatever the arrays and buffers held before (stale `out`, the thread's previous call,
+   uninitialised stack), whatever the other threads do.  The discipline is the one read from the source. *)
+Theorem C16_threads_sequential :
+  forall (W : Z) (libs : list prog) (inits : list (list (nat * list Z) * @mem Z * (nat -> @mem Z))) (sh : nat -> @mem Z) (sched : list nat),
+    Forall (good_callsZ W libs) (map (fun x => fst (fst x)) inits) ->
+    let w0 := {| w_threads := map (fun x => fresh_thread (fst (fst x)) (snd (fst x)) (snd x)) inits; w_shared := sh |} in
+    Forall2 (fun calls0 t =>
+               t_stuck t = false /\
+               (exists k, map Some (t_results t) = map (expectedZ W libs) (firstn k calls0)) /\
+               (finished t = true -> map Some (t_results t) = map (expectedZ W libs) calls0))
+            (map (fun x => fst (fst x)) inits)
+            (w_threads (run_scheduleZ W (negb (private_storage buffer_storage)) libs w0 sched)).
+Proof. exact (fun W => private_schedules_sequential 0%Z Z.lnot Z.land Z.lor Z.lxor (wrap W)). Qed.
+
+(* ... and every schedule that gives thread j its turns (one to start a call, one per statement, one to return) ends with thread
+   j finished, holding exactly the results of its calls made alone *)
+Theorem C16_threads_complete :
+  forall (W : Z) (libs : list prog) (inits : list (list (nat * list Z) * @mem Z * (nat -> @mem Z))) (sh : nat -> @mem Z) (sched : list nat)
+         j calls gp gt,
+    Forall (good_callsZ W libs) (map (fun x => fst (fst x)) inits) ->
+    nth_error inits j = Some (calls, gp, gt) ->
+    list_sum (map (call_work libs) calls) <= count_occ Nat.eq_dec sched j ->
+    let w0 := {| w_threads := map (fun x => fresh_thread (fst (fst x)) (snd (fst x)) (snd x)) inits; w_shared := sh |} in
+    exists t, nth_error (w_threads (run_scheduleZ W (negb (private_storage buffer_storage)) libs w0 sched)) j = Some t /\
+              finished t = true /\ map Some (t_results t) = map (expectedZ W libs) calls.
+Proof. exact (fun W => private_schedules_complete 0%Z Z.lnot Z.land Z.lor Z.lxor (wrap W)). Qed.
+
+(* one thread, many calls: a call's result does not depend on what earlier calls left in `out` and in the buffers *)
+Theorem C16_stale_memory : forall (W : Z) (p : prog) (inp out : list Z) (stale : @mem Z),
+  execZ W p inp = Some out ->
+  exists mf, @exec_body Z 0%Z Z.lnot Z.land Z.lor Z.lxor (wrap W) (sizes p)
+               (fun b i => if b =? 0 then nth_error inp i else stale b i) (body p) = Some mf
+             /\ read_all mf 1 (seq 0 (size_of (sizes p) 1)) = Some out.
+Proof. exact (fun W => stale_memory_same_result 0%Z Z.lnot Z.land Z.lor Z.lxor (wrap W)). Qed.
+
+(* with plain `static` buffers (one copy for all threads) the statement is false: two threads, one library
+   `buf[0] = inp[0]; out[0] = buf[0];`, inputs 1 and 0 — the schedule below makes thread 0 return thread 1's value; the same
+   schedule with private buffers returns the sequential results (the premises of the theorem above are satisfiable) *)
+Theorem C16_shared_static_refuted :
+  results_of (run_scheduleB true [copy_lib] two_threads bad_schedule) = [[[false]]; [[false]]]
+  /\ map (@expected bool false negb andb orb xorb (fun b => b) [copy_lib]) [(0, [true]); (0, [false])] = [Some [true]; Some [false]].
+Proof. exact shared_static_wrong. Qed.
+Theorem C16_private_example :
+  results_of (run_scheduleB false [copy_lib] two_threads bad_schedule) = [[[true]]; [[false]]]
+  /\ stuck_of (run_scheduleB false [copy_lib] two_threads bad_schedule) = [false; false]
+  /\ map (@finished bool) (w_threads (run_scheduleB false [copy_lib] two_threads bad_schedule)) = [true; true].
+Proof. exact private_same_schedule. Qed.
+(* a program that reads a cell before writing it is outside the theorem (no result on fresh memory) and does depend on history *)
+Theorem C16_unwritten_read_refuted :
+  execB stale_lib [true] = None
+  /\ results_of (run_scheduleB false [stale_lib]
+        {| w_threads := [fresh_thread [(0, [true]); (0, [true])] no_garbage (fun _ b i => if (b =? 2) && (i =? 0) then Some false else None)];
+           w_shared := fun _ => no_garbage |} [0; 0; 0; 0; 0; 0; 0; 0]) = [[[false]; [true]]].
+Proof. exact unwritten_read_depends_on_history. Qed.
+
 Eval compute in "PA:C16_disciplines"%string. Print Assumptions C16_disciplines.
 Eval compute in "PA:C16_invariant"%string. Print Assumptions C16_invariant.
 Eval compute in "PA:C16_no_crash"%string. Print Assumptions C16_no_crash.
@@ -51,3 +115,10 @@ Eval compute in "PA:C16_bypath_refuted"%string. Print Assumptions C16_bypath_ref
 Eval compute in "PA:C16_reentrant_structure"%string. Print Assumptions C16_reentrant_structure.
 Eval compute in "PA:C16_rebuilds_empty_refuted"%string. Print Assumptions C16_rebuilds_empty_refuted.
 Eval compute in "PA:C16_compile_requires_model"%string. Print Assumptions C16_compile_requires_model.
+Eval compute in "PA:C16_buffers_private"%string. Print Assumptions C16_buffers_private.
+Eval compute in "PA:C16_threads_sequential"%string. Print Assumptions C16_threads_sequential.
+Eval compute in "PA:C16_threads_complete"%string. Print Assumptions C16_threads_complete.
+Eval compute in "PA:C16_stale_memory"%string. Print Assumptions C16_stale_memory.
+Eval compute in "PA:C16_shared_static_refuted"%string. Print Assumptions C16_shared_static_refuted.
+Eval compute in "PA:C16_private_example"%string. Print Assumptions C16_private_example.
+Eval compute in "PA:C16_unwritten_read_refuted"%string. Print Assumptions C16_unwritten_read_refuted.
